@@ -3,3 +3,9 @@ check("C05", "exploration",
   "Trusts the reference fixtures as inklecate output and the runtime as a common execution vehicle (a runtime defect affecting both stories identically is invisible here; see C01). 18 recorded genuine divergences are listed in known_findings.json by (file@knot.stitch#field).",
   "lockstep differential monitor: reference-compiled vs own-compiled story, all choice paths",
   "DESIGN.md §4 C05")
+
+check("C02", "exploration",
+  "Generated programs (lists, RANDOM, shuffles, threads, tunnels, multi-line functions, fallbacks) and corpus stories are driven through seeded host-call histories (continues, choices, several flows, path jumps, host assignments); at EVERY boundary of every history the story is saved, loaded into a freshly constructed story with the same host bindings, and monitored in lockstep against the uninterrupted control: state right after load (can_continue, text, tags, choices, all globals, all visit counts), canonical equality of a second save, every later call of the history, final state. The oracle needs no knowledge of Ink semantics, so it cannot be stricter than correct code.",
+  "Trusts the control run (same program, seed, history without the save) as reference and the step-fuel/story-seed hooks. Save points in error states and fuel-exhausted runs are counted as inconclusive, not as held.",
+  "lockstep metamorphic monitor: save -> fresh story -> load must be invisible at every history boundary",
+  "DESIGN.md §4 C02")
